@@ -142,6 +142,7 @@ type vc struct {
 	sentinels map[string]bool
 	inlineStack map[*ssa.Function]bool
 	unresolved bool
+	readOps []readOp
 	ghostSorts map[string]string
 }
 
